@@ -347,7 +347,7 @@ def search_failing_input(cid, defs, n, n_inputs, rng, extra_values=(), var_ids=N
                 el = "[" + "; ".join(fa.zc(v) for v in e) + "]"
                 rc, o2, _ = H.coq_eval(defs, [f"conc_progb bp_{cid} {ticks}%nat ds_{cid} qs_{cid} rs_{cid} bqs_{cid} (env_of {el})"], EXTRA,
                                        tag=f"srch2{cid}")
-                pairs = re.findall(r"\((-?\d+),\s*(-?\d+)\)", (o2[0] or "").replace("%Z", ""))
+                pairs = re.findall(r"\(\s*(-?\d+)\s*,\s*(-?\d+)\s*\)", (o2[0] or "").replace("%Z", ""))
                 return e, [(int(a), int(b)) for a, b in pairs]
     return None
 
